@@ -901,12 +901,15 @@ def corr_denote(ck):
     for strong in (True, False):
         bt.add_chunked(f'b_denote {cbool(strong)}', items[strong], ast_coq, chunk=20)
     bt.add_chunked('b_spell', spelled, ast_coq, chunk=20)
+    # the machine-free graph of the tree (SmilesGraph.denote_graph) against atoms and bonds of the real parser's record
+    for strong in (True, False):
+        bt.add_chunked(f'b_dgraph {cbool(strong)}', [(t, '-' if e.startswith('!') else ';'.join(e.split(';')[:2])) for t, e in items[strong]], ast_coq, chunk=20)
     ck.extra['ast_trees'] = len(trees)
     ck.sample({'ast_text': ast_text(trees[0]), 'denote': items[True][0][1]})
     saved = coqcases_imports[0]
-    coqcases_imports[0] = 'Tokenize Parser Reader SmilesAst'
+    coqcases_imports[0] = 'Tokenize Parser Reader SmilesAst SmilesGraph'
     try:
-        return bt.run(f'parser(spelled tokens) == Coq denote(tree) and spelling == Coq spell(tree) on {len(trees)} generated syntax trees, both modes',
+        return bt.run(f'parser(spelled tokens) == Coq denote(tree), its atoms and bonds == Coq denote_graph(tree) (machine-free), spelling == Coq spell(tree) on {len(trees)} generated syntax trees, both modes',
                       single=ast_coq)
     finally:
         coqcases_imports[0] = saved
